@@ -1,8 +1,8 @@
 //! C13 — a message is served exactly when its service is currently registered.
 //!
 //! Engine E1: every add/remove sequence (no state merging, so hidden registry state
-//! cannot hide) over three services — S1 and S2 handle the same message type, S3 handles
-//! two message types — is executed on a real `Server` through the in-process transport
+//! cannot hide) over five services — S1 and S2 handle the same message type, S3 handles
+//! two message types, G1 and G2 are registered under one shared service name — is executed on a real `Server` through the in-process transport
 //! (H3), and after *every* event every (service, message) pair is probed with a real
 //! `RpcClient`. Reference model: a set of registered service names.
 
@@ -48,8 +48,14 @@ pub struct Tagged {
 
 macro_rules! service {
     ($name:ident, $tag:expr, [$($msg:ty => $mtag:expr, $echo:expr);*]) => {
+        service!($name, std::any::type_name::<$name>(), $tag, [$($msg => $mtag, $echo);*]);
+    };
+    ($name:ident, $svc_name:expr, $tag:expr, [$($msg:ty => $mtag:expr, $echo:expr);*]) => {
         pub struct $name;
         impl RpcService for $name {
+            fn service_name() -> &'static str {
+                $svc_name
+            }
             fn register_handlers(registry: &mut ServiceRegistry<Self>) {
                 $(registry.add_handler::<$msg>();)*
             }
@@ -71,6 +77,10 @@ macro_rules! service {
 service!(S1, 1, [Ping => 1, |m: &Ping| m.n]);
 service!(S2, 2, [Ping => 1, |m: &Ping| m.n]);
 service!(S3, 3, [Ping => 1, |m: &Ping| m.n; Other => 2, |m: &Other| m.text.len() as u32]);
+// Two services registered under the SAME service name with different message types:
+// removing the name must remove both.
+service!(G1, "gamma", 4, [Ping => 1, |m: &Ping| m.n]);
+service!(G2, "gamma", 5, [Other => 2, |m: &Other| m.text.len() as u32]);
 
 #[derive(Clone, Copy, Debug, PartialEq, Eq)]
 enum Ev {
@@ -78,19 +88,24 @@ enum Ev {
     Remove(u8),
 }
 
-const EVENTS: [Ev; 6] = [
+/// Add(1..=3) = S1..S3, Add(4) = G1, Add(5) = G2; Remove(1..=3) by the service's own name,
+/// Remove(4) = remove the shared name "gamma".
+const EVENTS: [Ev; 9] = [
     Ev::Add(1),
     Ev::Add(2),
     Ev::Add(3),
+    Ev::Add(4),
+    Ev::Add(5),
     Ev::Remove(1),
     Ev::Remove(2),
     Ev::Remove(3),
+    Ev::Remove(4),
 ];
 
 fn ev_json(e: &Ev) -> J {
     match e {
-        Ev::Add(i) => J::from(format!("add S{i}")),
-        Ev::Remove(i) => J::from(format!("remove S{i}")),
+        Ev::Add(i) => J::from(format!("add {i}")),
+        Ev::Remove(i) => J::from(format!("remove {i}")),
     }
 }
 
@@ -121,11 +136,18 @@ async fn probe(service: u8, message: u8) -> Result<Option<(u32, u32, u32)>, Stri
                 .await
                 .map(|v| tag(&v)),
         ),
+        (4, 1) => as_result(RpcClient::<G1>::new(channel).send(&Ping { n: 44 }).await.map(|v| tag(&v))),
+        (5, 2) => as_result(
+            RpcClient::<G2>::new(channel)
+                .send(&Other { text: "gamma!".into() })
+                .await
+                .map(|v| tag(&v)),
+        ),
         _ => unreachable!(),
     }
 }
 
-const PROBES: [(u8, u8, u32); 4] = [(1, 1, 41), (2, 1, 42), (3, 1, 43), (3, 2, 5)];
+const PROBES: [(u8, u8, u32); 6] = [(1, 1, 41), (2, 1, 42), (3, 1, 43), (3, 2, 5), (4, 1, 44), (5, 2, 6)];
 
 async fn run_sequence(seq: &[Ev], st: &mut Stats) {
     datacake_rpc::verif::set_in_process(true);
@@ -137,6 +159,9 @@ async fn run_sequence(seq: &[Ev], st: &mut Stats) {
             Ev::Add(1) => server.add_service(S1),
             Ev::Add(2) => server.add_service(S2),
             Ev::Add(3) => server.add_service(S3),
+            Ev::Add(4) => server.add_service(G1),
+            Ev::Add(5) => server.add_service(G2),
+            Ev::Remove(4) => server.remove_service("gamma"),
             Ev::Remove(1) => server.remove_service(S1::service_name()),
             Ev::Remove(2) => server.remove_service(S2::service_name()),
             Ev::Remove(3) => server.remove_service(S3::service_name()),
@@ -145,6 +170,14 @@ async fn run_sequence(seq: &[Ev], st: &mut Stats) {
         match ev {
             Ev::Add(s) => {
                 registered.insert(*s);
+            },
+            Ev::Remove(4) => {
+                // the shared name: both services registered under it go
+                let a = registered.remove(&4);
+                let b = registered.remove(&5);
+                if !a && !b {
+                    st.inc("removals_of_absent_service");
+                }
             },
             Ev::Remove(s) => {
                 if !registered.remove(s) {
@@ -253,15 +286,15 @@ pub fn run(tier: Tier) -> i32 {
     let absent = total.get("removals_of_absent_service");
     total.flush_into(&mut report);
     // distinct registry states the reference model went through: subsets of 3 services
-    report.cover("states", 8u64.min(1 + transitions));
+    report.cover("states", 32u64.min(1 + transitions));
     report.cover("transitions", transitions);
     report.cover("traces_validated_against_impl", sequences);
     report.cover("evaluations", sequences);
     report.cover("distinct_nontrivial", sequences);
     report.cover(
         "rule",
-        "all 6^len add/remove sequences (no state merging) on a real Server; after every event 4 probes through real \
-         RpcClients over the in-process transport; every sequence is distinct; states = subsets of the 3 services in the reference model",
+        "all 9^len add/remove sequences (no state merging) on a real Server; after every event 4 probes through real \
+         RpcClients over the in-process transport; every sequence is distinct; states = subsets of the 5 service instances in the reference model",
     );
     report.cover("sequence_length", len);
     report.cover("exhaustive", true);
